@@ -844,8 +844,8 @@ def oracle_reader(ctx, name, a, b, cpath):
                 elif d[0] == "fn":
                     ent = [b for b in ctx["dump"]["builtins"] if b["key"] == unhx(d[1])][0]
                     if "native" in ent:
-                        if text != ent["native"] + " (built-in)":
-                            why = "a built-in function must print its name marked as built-in"
+                        if text != ent["key"] + " (built-in)":
+                            why = "a built-in function must print its name (%s) marked as built-in" % ent["key"]
                     else:
                         r = read_number(text)
                         if not (same_float(r[0], ent["re"]) and same_float(r[1], ent["im"])):
